@@ -25,6 +25,7 @@ import (
 	"sort"
 	"strconv"
 	"strings"
+	"sync"
 	"time"
 	"unsafe"
 
@@ -422,6 +423,8 @@ type caseT struct {
 	CallConvs     []int     `json:",omitempty"` // entry B through a Binder: converters registered per call
 	WarmCallConvs []int     `json:",omitempty"` // the per-call converters of the earlier request
 	HasWarmCall   bool      `json:",omitempty"`
+	AllErrors     bool      `json:",omitempty"` // WithAllErrors (with the options of the call / of the Binder)
+	Conc          int       `json:",omitempty"` // > 1: the bind is made from this many goroutines at once (first binds of a type)
 	Body          *bodyCase `json:",omitempty"` // entry J (body.go)
 	HTTP          *httpCase `json:",omitempty"` // entry H (body.go)
 }
@@ -482,6 +485,9 @@ var intOdd = []string{"+5", "007", "-0", "0x10", "0b101", "0o17", "017", "1_000"
 // ambiguousLayouts is set while the source of a case with day/month-ambiguous time layouts is generated.
 var ambiguousLayouts bool
 
+// longLayouts is set while the source of a case with a long custom layout list is generated.
+var longLayouts bool
+
 // genValue returns a value string for a leaf of the given prim. With bad it is out of range or
 // malformed for the kind; otherwise representable (typical values and the exact boundaries). The
 // second result says whether the value is a boundary, out-of-range or malformed one.
@@ -536,8 +542,8 @@ func genValue(r *hx.Rand, prim string, bad bool) (string, bool) {
 			return hx.Pick(r, []string{"25/12/2024", "12/25/2024", "03/04/2024", "13/01/2024", "01/13/2024", "05/06/2024", "31/01/2024"}), true
 		}
 		if !bad {
-			if r.Chance(1, 6) {
-				return hx.Pick(r, []string{"01/15/2024", "2024.01.15", "Jan 2 2024"}), true // only with WithTimeLayouts
+			if r.Chance(1, 6) || (longLayouts && r.Chance(2, 3)) {
+				return hx.Pick(r, []string{"01/15/2024", "2024.01.15", "Jan 2 2024", "15-01-2024 10:30", "2024/01/15", "10:30 15.01.2024"}), true // only with WithTimeLayouts
 			}
 			return hx.Pick(r, timePool), false
 		}
@@ -567,12 +573,28 @@ func genOpts(r *hx.Rand) optsT {
 	o.CSV = r.Chance(3, 20)
 	o.BaseAuto = r.Chance(3, 20)
 	if r.Chance(1, 8) {
-		o.Layouts = hx.Pick(r, [][]string{{"01/02/2006"}, {"2006.01.02", "Jan 2 2006"}, {}, {"01/02/2006", "02/01/2006"}, {"02/01/2006", "01/02/2006"}})
+		o.Layouts = hx.Pick(r, [][]string{{"01/02/2006"}, {"2006.01.02", "Jan 2 2006"}, {}, {"01/02/2006", "02/01/2006"}, {"02/01/2006", "01/02/2006"},
+			{"01/02/2006", "2006.01.02", "Jan 2 2006", "02-01-2006 15:04", "2006/01/02", "15:04 02.01.2006"},
+			{time.RFC3339, "2006.01.02", time.DateOnly, "Jan 2 2006", time.DateTime, "01/02/2006", time.Kitchen}})
+		o.Layouts = append([]string{}, o.Layouts...)
 	}
 	return o
 }
 
 func genCase(r *hx.Rand) caseT {
+	c := genCase1(r)
+	if c.Entry == "G" || c.Entry == "T" || c.Entry == "B" {
+		if !firstSeen[c.T] {
+			// nothing of this type has been bound in this process yet: several goroutines at once, no earlier request
+			c.Conc = 4
+			c.HasWarm, c.Warm, c.WarmS = false, nil, nil
+		}
+	}
+	firstSeen[c.T] = true
+	return c
+}
+
+func genCase1(r *hx.Rand) caseT {
 	if len(bodyTypes) > 0 && r.Chance(1, 6) {
 		return genBodyCase(r)
 	}
@@ -585,6 +607,11 @@ func genCase(r *hx.Rand) caseT {
 	}
 	c := caseT{T: ct.E.Name, Tag: r.Intn(5), Opts: genOpts(r)}
 	forceWarm := false
+	if len(c.Opts.Layouts) >= 5 && len(timeTypes) > 0 {
+		// a long application-wide layout list: on a type that has time fields
+		ct = hx.Pick(r, timeTypes)
+		c.T = ct.E.Name
+	}
 	if len(c.Opts.Layouts) == 2 && strings.Contains(c.Opts.Layouts[0], "/") && len(timeTypes) > 0 {
 		// day/month-ambiguous layouts: on a type that has time fields, after an earlier request
 		ct = hx.Pick(r, timeTypes)
@@ -647,10 +674,12 @@ func genCase(r *hx.Rand) caseT {
 			}
 		}
 	}
+	c.AllErrors = r.Chance(1, 6)
 	convHint = len(c.Convs)+len(c.CallConvs) > 0
 	defer func() { convHint = false }()
 	if c.Entry == "B" && r.Chance(1, 4) {
 		c.Convs, c.CallConvs, c.WarmCallConvs, c.HasWarmCall = nil, nil, nil, false
+		c.AllErrors = false // bindInternal hands no options to these sources
 		convHint = false
 		// app.Context.BindOnly: path, query, header, cookie of one request, in that order
 		c.Entry = "A"
@@ -784,7 +813,8 @@ func garbage(e reflect.Value) {
 // genSrc builds the content of one source of kind tag, aimed at the leaves the type has under it.
 func genSrc(r *hx.Rand, sh *shape, tagKind int, opts optsT, ntFlag *bool, pPresent int) [][2]string {
 	ambiguousLayouts = len(opts.Layouts) == 2 && strings.Contains(opts.Layouts[0], "/")
-	defer func() { ambiguousLayouts = false }()
+	longLayouts = len(opts.Layouts) >= 5
+	defer func() { ambiguousLayouts, longLayouts = false, false }()
 	var src [][2]string
 	multi := tagKind != 1 // path parameters are single-valued
 	qf := tagKind == 0 || tagKind == 2
@@ -984,9 +1014,25 @@ func (o optsT) options() []binding.Option {
 		out = append(out, binding.WithIntBaseAuto())
 	}
 	if o.Layouts != nil {
-		out = append(out, binding.WithTimeLayouts(o.Layouts...))
+		out = append(out, binding.WithTimeLayouts(appLayouts(o.Layouts)...))
 	}
 	return out
+}
+
+// appLayouts returns the slice an application would hold for a layout list (`var layouts = []string{…}`,
+// passed as WithTimeLayouts(layouts...) on every request): one long-lived slice per list, handed to the
+// real code again and again. The reference (refParseTime) works on the case's own copy, so a bind that
+// writes into its caller's slice shows in every later bind with that list.
+var appLayoutSets = map[string][]string{}
+
+func appLayouts(ls []string) []string {
+	k := strings.Join(ls, "\x00")
+	if s, ok := appLayoutSets[k]; ok {
+		return s
+	}
+	s := append(make([]string, 0, len(ls)), ls...)
+	appLayoutSets[k] = s
+	return s
 }
 
 func (o optsT) effective() (int, int, int) {
@@ -1266,6 +1312,56 @@ func tableEntry(l *hx.Line, s string, extra *[]string, layouts []string, opq []i
 
 // ---------------------------------------------------------------- running the real code
 
+// flattenErrs walks what a collecting bind returns (MultiError, errors.Join, BindError chains) and lists the
+// leaf errors in order, each with the field names above it.
+func flattenErrs(err error, prefix []string, body bool, out *[]func(*hx.Line)) {
+	switch e := err.(type) {
+	case *binding.BindError:
+		p := append(append([]string(nil), prefix...), e.Field)
+		if e.Err == nil {
+			*out = append(*out, func(l *hx.Line) { l.Tok("E").Strs(p).Tok("C") })
+			return
+		}
+		flattenErrs(e.Err, p, body, out)
+		return
+	case *binding.MultiError:
+		for _, c := range e.Errors {
+			flattenErrs(c, prefix, body, out)
+		}
+		return
+	case interface{ Unwrap() []error }:
+		for _, c := range e.Unwrap() {
+			flattenErrs(c, prefix, body, out)
+		}
+		return
+	}
+	var be *binding.BindError
+	if errors.As(err, &be) {
+		// a BindError wrapped by something else: its chain counts
+		names, cls := classify(err)
+		p := append(append([]string(nil), prefix...), names...)
+		*out = append(*out, func(l *hx.Line) { l.Tok("E").Strs(p).Tok(cls) })
+		return
+	}
+	if body && len(prefix) == 0 && !errors.Is(err, binding.ErrNoSourcesProvided) {
+		_, w := classifyBody(err)
+		*out = append(*out, w)
+		return
+	}
+	_, cls := classify(err)
+	p := append([]string(nil), prefix...)
+	*out = append(*out, func(l *hx.Line) { l.Tok("E").Strs(p).Tok(cls) })
+}
+
+func writeAllErrors(l *hx.Line, err error, body bool) {
+	var items []func(*hx.Line)
+	flattenErrs(err, nil, body, &items)
+	l.Tok("A").Nat(len(items))
+	for _, w := range items {
+		w(l)
+	}
+}
+
 func classify(err error) ([]string, string) {
 	var names []string
 	for {
@@ -1297,6 +1393,9 @@ func run(ct *corpusType, c *caseT, s *srcT, dest any) (res any, err error, panic
 		}
 	}()
 	o := append(c.Opts.options(), convOptions(c.Convs)...)
+	if c.AllErrors {
+		o = append(o, binding.WithAllErrors())
+	}
 	if c.Binder {
 		return runBinder(ct, c, s, dest)
 	}
@@ -1409,12 +1508,16 @@ func runApp(c *caseT, dest any, again func() any) (srcs []*srcT, tags []int, err
 // binders are reusable: one per option set for the whole run (as an application would keep them)
 var binders = map[string]*binding.Binder{}
 
-func binderFor(o optsT, convs []int) *binding.Binder {
-	k := fmt.Sprintf("%+v %v", o, convs)
+func binderFor(o optsT, convs []int, all bool) *binding.Binder {
+	k := fmt.Sprintf("%+v %v %v", o, convs, all)
 	if b, ok := binders[k]; ok {
 		return b
 	}
-	b, err := binding.New(append(o.options(), convOptions(convs)...)...)
+	bo := append(o.options(), convOptions(convs)...)
+	if all {
+		bo = append(bo, binding.WithAllErrors())
+	}
+	b, err := binding.New(bo...)
 	if err != nil {
 		panic(err)
 	}
@@ -1445,7 +1548,7 @@ func fromOptions(c *caseT) []binding.Option {
 // runBinder: the same binds through a Binder object — QueryWith[T] … / Binder.QueryTo … for one source,
 // BindWith[T] / Binder.BindTo (config cloned per call, per-call options on top) for several.
 func runBinder(ct *corpusType, c *caseT, s *srcT, dest any) (res any, err error, panicked bool) {
-	b := binderFor(c.Opts, c.Convs)
+	b := binderFor(c.Opts, c.Convs, c.AllErrors)
 	switch c.Entry {
 	case "B":
 		from := fromOptions(c)
@@ -1490,6 +1593,7 @@ func runBinder(ct *corpusType, c *caseT, s *srcT, dest any) (res any, err error,
 }
 
 func emit(id string, c caseT, st *hx.Stats) string {
+	defer func() { firstSeen[c.T] = true }()
 	if c.Entry == "J" || c.Entry == "H" {
 		return emitBody(id, c, st)
 	}
@@ -1548,6 +1652,7 @@ func emit(id string, c caseT, st *hx.Stats) string {
 		l.Nat(e[0]).Nat(e[1])
 		convIDs = append(convIDs, e[1])
 	}
+	l.Bool(c.AllErrors)
 	ct.Node.tokens(l)
 	l.Tok(strings.TrimSpace(il.String()))
 	// source(s) as the model sees them
@@ -1623,34 +1728,53 @@ func emit(id string, c caseT, st *hx.Stats) string {
 	var res any
 	var err error
 	var panicked bool
-	if c.Entry == "A" {
+	var others []concOut
+	switch {
+	case c.Entry == "A":
 		res, err, panicked = dest, appErr, appPanicked
-	} else {
+	case c.Conc > 1:
+		// the first binds of the type, from several goroutines at once: one case line per goroutine
+		outs := runConcurrent(ct, &c, s)
+		res, err, panicked = outs[0].res, outs[0].err, outs[0].panicked
+		others = outs[1:]
+	default:
 		res, err, panicked = run(ct, &c, s, dest)
 	}
-	l.Sep()
 	outcome := "ok"
-	switch {
-	case panicked:
-		l.Tok("X")
-		outcome = "panic"
-	case err != nil:
-		names, cls := classify(err)
-		l.Tok("E").Strs(names).Tok(cls)
-		outcome = "err_" + cls
-	default:
-		l.Tok("O")
-		rv := reflect.ValueOf(res)
-		if rv.Kind() == reflect.Pointer {
-			rv = rv.Elem()
-		} else {
-			// generic entry points return the struct by value: make it addressable for rendering
-			p := reflect.New(rv.Type())
-			p.Elem().Set(rv)
-			rv = p.Elem()
+	writeObs := func(l *hx.Line, res any, err error, panicked bool) {
+		l.Sep()
+		switch {
+		case panicked:
+			l.Tok("X")
+			outcome = "panic"
+		case err != nil && c.AllErrors:
+			writeAllErrors(l, err, false)
+			outcome = "err_all"
+		case err != nil:
+			names, cls := classify(err)
+			l.Tok("E").Strs(names).Tok(cls)
+			outcome = "err_" + cls
+		default:
+			l.Tok("O")
+			rv := reflect.ValueOf(res)
+			if rv.Kind() == reflect.Pointer {
+				rv = rv.Elem()
+			} else {
+				// generic entry points return the struct by value: make it addressable for rendering
+				p := reflect.New(rv.Type())
+				p.Elem().Set(rv)
+				rv = p.Elem()
+			}
+			render(rv, l)
 		}
-		render(rv, l)
 	}
+	var more string
+	for i, o := range others {
+		ol := hx.NewLine(fmt.Sprintf("%s-g%d", id, i+1)).Tok(strings.TrimSpace(in[len(id):]))
+		writeObs(ol, o.res, o.err, o.panicked)
+		more += "\n" + ol.String() + hx.Comment(c)
+	}
+	writeObs(l, res, err, panicked)
 	if st != nil {
 		sh := ct.Shapes[c.Tag]
 		st.Case(in[len(id):], (sh.EmbedDepth >= 2 || sh.HasPSM) && c.NT)
@@ -1700,13 +1824,76 @@ func emit(id string, c caseT, st *hx.Stats) string {
 			st.Count("opt_limits")
 		}
 	}
-	return l.String() + hx.Comment(c)
+	return l.String() + hx.Comment(c) + more
 }
+
+type concOut struct {
+	res      any
+	err      error
+	panicked bool
+}
+
+// runConcurrent performs the bind of the case from c.Conc goroutines at the same time, each into its own
+// destination. While it runs, the UnmarshalText of the corpus's own types is slow (application code may be).
+func runConcurrent(ct *corpusType, c *caseT, s *srcT) []concOut {
+	if c.Binder {
+		binderFor(c.Opts, c.Convs, c.AllErrors)
+	}
+	if c.Opts.Layouts != nil {
+		appLayouts(c.Opts.Layouts)
+	}
+	if c.Call != nil && c.Call.Layouts != nil {
+		appLayouts(c.Call.Layouts)
+	}
+	slowText.Store(true)
+	defer slowText.Store(false)
+	outs := make([]concOut, c.Conc)
+	start := make(chan struct{})
+	var wg sync.WaitGroup
+	for i := range outs {
+		dest := ct.E.New()
+		if c.Entry != "G" && c.Prefill != 0 {
+			prefill(hx.NewRand(c.Prefill), reflect.ValueOf(dest).Elem())
+		}
+		wg.Add(1)
+		go func(i int, dest any) {
+			defer wg.Done()
+			<-start
+			outs[i].res, outs[i].err, outs[i].panicked = run(ct, c, s, dest)
+		}(i, dest)
+	}
+	close(start)
+	wg.Wait()
+	return outs
+}
+
+// firstSeen: the types that have been bound in this process (generation marks the first case of a type)
+var firstSeen = map[string]bool{}
 
 // fixed witnesses: the K04 findings on the smallest corpus types that exhibit them are found by
 // scanning the corpus for the shape (so that regenerating the corpus cannot silently lose them)
 func fixedCases() []caseT {
 	var out []caseT
+	// first binds of a type from several goroutines at once, with every key absent (defaults apply): types with a
+	// TextUnmarshaler field that carries a default — these come first, nothing of the types is bound before
+	nconc := 0
+	for _, ct := range opqCorpus {
+		for tag := 0; tag < 5 && nconc < 6; tag++ {
+			hit := false
+			for _, lf := range ct.Shapes[tag].Leaves {
+				if lf.Kind == "prim" && (lf.Prim == "o4" || lf.Prim == "o5") && lf.Dflt != "" {
+					if _, ok := opqParse(int(lf.Prim[1]-'0'), lf.Dflt); ok {
+						hit = true
+					}
+				}
+			}
+			if hit {
+				nconc++
+				out = append(out, caseT{T: ct.E.Name, Tag: tag, Entry: hx.Pick(hx.NewRand(uint64(nconc)), []string{"G", "T"}), Opts: optsT{-1, -1, -1, false, false, nil}, NT: true, Conc: 4})
+				break
+			}
+		}
+	}
 	// K04b on every narrow kind: first leaf of that prim in the corpus, generic query
 	want := map[string]string{"i8": "300", "u8": "256", "f32": "1e300", "i16": "40000", "u16": "65536", "i32": "2147483648", "u32": "4294967296"}
 	done := map[string]bool{}
@@ -1865,6 +2052,10 @@ func fixedCases() []caseT {
 					HasWarmCall: true, WarmCallConvs: []int{1}, HasWarm: true,
 					WarmS: []srcCase{{Tag: 0, KV: [][2]string{{lf.Keys[0], "03/04/2024"}}}},
 					Srcs:  []srcCase{{Tag: 0, KV: [][2]string{{lf.Keys[0], "2024-01-15"}}}}})
+				// a layout list an application keeps and passes again: the second bind still knows its layouts
+				out = append(out, caseT{T: ct.E.Name, Tag: 0, Entry: "G", NT: true, HasWarm: true,
+					Opts: optsT{-1, -1, -1, false, false, []string{"01/02/2006", "2006.01.02", "Jan 2 2006", "02-01-2006 15:04", "2006/01/02", "15:04 02.01.2006"}},
+					Warm: [][2]string{{lf.Keys[0], "01/15/2024"}}, Src: [][2]string{{lf.Keys[0], "2024.01.15"}}})
 				seqT = true
 				out = append(out, caseT{T: ct.E.Name, Tag: 0, Entry: "G", Opts: optsT{-1, -1, -1, false, false, []string{"01/02/2006", "02/01/2006"}},
 					HasWarm: true, Warm: [][2]string{{lf.Keys[0], "25/12/2024"}}, Src: [][2]string{{lf.Keys[0], "03/04/2024"}}, NT: true})
